@@ -61,7 +61,10 @@ func (g *genC13) Block(w *World, b int) Block {
 	var steps []Step
 	if rng.Chance(1, 40) {
 		n := map[string]int64{}
-		switch rng.Intn(4) {
+		strs := map[string]string{}
+		switch rng.Intn(5) {
+		case 4:
+			strs["p:mint_denom"] = rng.PickS("ujwl", "ujkl", "uatom")
 		case 0:
 			n["mint_decrease"] = rng.Pick64(0, 6, blocksPerYear, 5*blocksPerYear)
 		case 1:
@@ -75,6 +78,9 @@ func (g *genC13) Block(w *World, b int) Block {
 			n["dev_grants_ratio"] = rng.Range(0, room-sr)
 		}
 		ps := Step{Kind: "param", S: map[string]string{"module": "mint"}, N: n}
+		for k, v := range strs {
+			ps.S[k] = v
+		}
 		if rng.Chance(1, 2) {
 			ps.S["via"] = "gov"
 		}
@@ -96,13 +102,18 @@ type oracleC13 struct {
 	preSup  sdk.Int
 	prevE   *sdk.Int
 	params  minttypes.Params
+	dn      string
 	blocks  int
 }
 
 func (o *oracleC13) BeforeBegin(w *World) {
 	o.pre = w.Balances()
-	o.preSup = w.Supply(denom)
 	o.params = w.node().app.MintKeeper.GetParams(w.Ctx())
+	o.dn = o.params.MintDenom
+	if o.dn == "" {
+		o.dn = denom
+	}
+	o.preSup = w.Supply(o.dn)
 }
 
 func (o *oracleC13) OnPanic(w *World, phase, text, frame string) {
@@ -114,7 +125,10 @@ func (o *oracleC13) OnPanic(w *World, phase, text, frame string) {
 func (o *oracleC13) AfterBegin(w *World, _ *abci.ResponseBeginBlock) {
 	initAddrs()
 	post := w.Balances()
-	e := w.Supply(denom).Sub(o.preSup)
+	e := w.Supply(o.dn).Sub(o.preSup)
+	if o.dn != denom {
+		w.Probe("emission_in_other_denom")
+	}
 	if e.IsNegative() {
 		w.Violate("C13:emission-negative", "supply shrank by %s at height %d", e.Neg(), w.height)
 		return
@@ -128,7 +142,7 @@ func (o *oracleC13) AfterBegin(w *World, _ *abci.ResponseBeginBlock) {
 		w.Violate("C13:emission-increased", "emission %s at height %d, previous block %s", e, w.height, *o.prevE)
 	}
 	share := func(r int64) sdk.Int { return e.MulRaw(r).QuoRaw(100) }
-	delta := o.pre.Delta(post, denom)
+	delta := o.pre.Delta(post, o.dn)
 	get := func(a string) sdk.Int {
 		if d, ok := delta[a]; ok {
 			return d
